@@ -8,6 +8,7 @@ import json
 import os
 import re
 import shutil
+import tempfile
 import subprocess
 import sys
 import time
@@ -117,6 +118,9 @@ def tlc(module, cfg, wd, workers=1, env=None, timeout=1800, extra=None, deque=Fa
     md = os.path.join(wd, "states_" + hashlib.md5((module + cfg + json.dumps(env or {}, sort_keys=True)).encode()).hexdigest()[:10])
     cmd = _tlc_cmd(module, cfg, md, workers, extra or [])
     cmd.insert(4, "-Xmx" + xmx)
+    # TLC unpacks its standard modules into java.io.tmpdir on every start: keep that litter inside the work directory
+    jt = tempfile.mkdtemp(prefix="jtmp", dir=wd)
+    cmd.insert(4, "-Djava.io.tmpdir=" + jt)
     if deque:
         cmd.insert(4, "-Dtlc2.tool.queue.IStateQueue=StateDeque")
     e = dict(os.environ)
@@ -130,6 +134,7 @@ def tlc(module, cfg, wd, workers=1, env=None, timeout=1800, extra=None, deque=Fa
         raise ToolError("TLC timed out after %ss on %s" % (timeout, os.path.basename(module)))
     finally:
         shutil.rmtree(md, ignore_errors=True)
+        shutil.rmtree(jt, ignore_errors=True)
     out = p.stdout
     m = _STATS.findall(out)
     gen, dist = (int(m[-1][0]), int(m[-1][1])) if m else (0, 0)
